@@ -13,7 +13,7 @@ CLAUSES = {
     "time-shift": "shifting start, stop, forcing frames and release times by the same number of whole steps leaves every trajectory unchanged",
 }
 BOUNDS = {
-    "quick": "6x6 ROMS grid with a sloping bottom, 3 levels, currents depending on level and frame (time interpolated, concrete values), 2 release rows at symbolic depths, one IBM death at a symbolic step, records every step or every 2nd step, sparse and dense layout, EF and RK2; shift by a symbolic number of steps in [-5, 5]; Nsteps 3",
+    "quick": "(module level: Forcing.velocity for the survivor alone after the first particle was removed since update(), symbolic fields/masks/depths on a 7x6 grid) 6x6 ROMS grid with a sloping bottom, 3 levels, currents depending on level and frame (time interpolated, concrete values), 2 release rows at symbolic depths, one IBM death at a symbolic step, records every step or every 2nd step, sparse and dense layout, EF and RK2; shift by a symbolic number of steps in [-5, 5]; Nsteps 3",
     "thorough": "Nsteps 4, RK4, all layout/scheme/period combinations, reordered rows sharing a release time",
 }
 ASSUMES = ["equality over the reals (bit-for-bit equality holds where both runs build the same operation sequence; rounding is outside the claim)"]
@@ -32,6 +32,9 @@ def scenarios(tier):
     out.append(dict(name="others-sparse-EF-p1-ibmfield", fn="others", params=dict(layout="sparse", adv="EF", per=1, nsteps=3, degdays=True, rbmax=1), cost=12))
     out.append(dict(name="others-sparse-EF-p1-ibmdirect", fn="others", params=dict(layout="sparse", adv="EF", per=1, nsteps=3, degdays="direct", rbmax=0), cost=12))
     out.append(dict(name="others-sparse-EF-p1-vertadv", fn="others", params=dict(layout="sparse", adv="EF", per=1, nsteps=2 if q else 3, vertadv=True, rbmax=0 if q else 1), cost=12))
+    # module level: a velocity request for the survivor alone after the other particle (first in the arrays) was removed since
+    # Forcing.update() - the real ROMS Forcing on symbolic fields, masks and depths (the C02 two-particle scenario)
+    out.append(dict(name="velocity-after-removal", fn="velocity_after_removal", params=dict(N=3, sub=[1, 6, 1, 5], packed=False, two=True, removal_clause="others-do-not-matter"), cost=40))
     if not q:
         out.append(dict(name="reorder-sparse-EF", fn="reorder", params=dict(layout="sparse", adv="EF", nsteps=3), cost=10))
         out.append(dict(name="reorder-dense-RK2", fn="reorder", params=dict(layout="dense", adv="RK2", nsteps=3), cost=10))
@@ -197,6 +200,12 @@ def shift(W, p):
     conds += [W.eq(x, y) for x, y in zip(base["vars"]["time"], moved["vars"]["time"])]
     W.prove(W.all(conds), "time-shift")
     return ("shift",)
+
+
+def velocity_after_removal(W, p):
+    from harness import c02
+
+    return c02.interp(W, p)
 
 
 def signature(v, scen):
